@@ -117,6 +117,15 @@ func (mw *Middleware) Wrap(next dnsserver.Handler) (wrapped dnsserver.Handler) {
 		fctx := mw.newFilteringContext(req)
 		defer mw.fltCtxPool.Put(fctx)
 
+		// Restore the class of debug requests, which is replaced in
+		// newFilteringContext, since the server uses req to create error
+		// responses.
+		defer func() {
+			if fctx.isDebug {
+				req.Question[0].Qclass = dns.ClassCHAOS
+			}
+		}()
+
 		ri := agd.MustRequestInfoFromContext(ctx)
 		optslog.Debug2(
 			ctx,
